@@ -25,12 +25,12 @@ func (m *Mutex) Unlock() {
 	}
 }
 
-// RWMutex is sync.RWMutex (writer preference is not modelled: a superset of
-// the real interleavings is explored).
+// RWMutex is sync.RWMutex, including writer preference: a reader arriving
+// after a writer has called Lock waits for that writer.
 type RWMutex struct{ real sync.RWMutex }
 
 func (m *RWMutex) Lock() {
-	if !mcrt.MuLock(m) {
+	if !mcrt.RWLock(m) {
 		m.real.Lock()
 	}
 }
